@@ -36,11 +36,18 @@ refactoring introduces, so that every rule sees one form:
       return f(x)
   N9  xs = [E for ..]; S(xs)           ->     S([E for ..])      xs a single-use local, S the next statement
       x = a.b; return S(x)             ->     return S(a.b)
+      x = E; return x                  ->     return E
       x = g(..); return Cls(x, ..)     ->     return Cls(g(..), ..)     (Cls a class name, cls or <obj>.__class__)
       (operands of S evaluated before xs are evaluated after it instead: no rule depends on the order of pure operands)
   N10 [E(t) for t in (a, b, c)]          ->    [E(a), E(b), E(c)]
   N11 if not c: A                            if c: B
       else: B                          ->    else: A           (B not an elif chain)
+  N18 calls of the package's plain functions (unique name) pass parameters without a default positionally and parameters with a default
+      by keyword: f(x, 3, 'deg') and f(x, dim=3, unit='deg') are one call
+  N20 if c: return A; <rest>            ->    if c: return A else: <rest>        (the arm always returns; raising guards stay flat)
+  N21 else: (if c: raise E); <rest>     ->    elif not c: <rest> else: raise E   (a chain gets its final `else: raise` back)
+  N19 in the test of if / while / assert negations are pushed inwards: not a == b -> a != b, not (a or b) -> not a and not b
+  N17 `pass` next to other statements is dropped (an `else: pass; if ..` is the elif it was)
   N4  negated disjunction / conjunction in a test position is left to the fact splitter (cfg._split handles polarity)
 
 Set VERIF_NO_NORMALIZE=1 to analyse the raw AST (development aid)."""
@@ -128,9 +135,20 @@ class _Normalise(ast.NodeTransformer):
     # ---- N11  if not c: A else: B   ->   if c: B else: A      (plain else only: an elif chain keeps its shape)
     def visit_If(self, st):
         self.generic_visit(st)
+        from .boolfold import _push_not
         if isinstance(st.test, ast.UnaryOp) and isinstance(st.test.op, ast.Not) and st.orelse and \
-                not (len(st.orelse) == 1 and isinstance(st.orelse[0], ast.If)) and not (len(st.body) == 1 and isinstance(st.body[0], ast.If)):
-            st.test, st.body, st.orelse = st.test.operand, st.orelse, st.body
+                not (len(st.body) == 1 and isinstance(st.body[0], ast.If)):
+            chain = len(st.orelse) == 1 and isinstance(st.orelse[0], ast.If)
+            # with an elif chain behind it only a negated GUARD is turned round (if not c: raise / return .. elif ..), so that the
+            # positive case carries the chain
+            if not chain or (len(st.body) == 1 and isinstance(st.body[0], (ast.Raise, ast.Return))):
+                st.test, st.body, st.orelse = st.test.operand, st.orelse, st.body
+        # N19 (after N11, which needs the leading `not`): in a test position negations are pushed inwards: not a == b -> a != b,
+        # not (a or b) -> not a and not b, not not a -> a
+        st.test = ast.copy_location(_push_not(st.test), st.test)
+        if isinstance(st.test, ast.UnaryOp) and isinstance(st.test.op, ast.Not) and st.orelse and \
+                not (len(st.body) == 1 and isinstance(st.body[0], ast.If)) and not (len(st.orelse) == 1 and isinstance(st.orelse[0], ast.If)):
+            st.test, st.body, st.orelse = st.test.operand, st.orelse, st.body       # `not not c` uncovered a plain negation
         return st
 
     # ---- N10  [E(t) for t in (a, b, c)]   ->   [E(a), E(b), E(c)]     (t a plain name, a, b, c free of t)
@@ -150,6 +168,18 @@ class _Normalise(ast.NodeTransformer):
                 ast.fix_missing_locations(node)
                 return node
         return n
+
+    def visit_While(self, st):
+        self.generic_visit(st)
+        from .boolfold import _push_not
+        st.test = ast.copy_location(_push_not(st.test), st.test)
+        return st
+
+    def visit_Assert(self, st):
+        self.generic_visit(st)
+        from .boolfold import _push_not
+        st.test = ast.copy_location(_push_not(st.test), st.test)
+        return st
 
     # ---- N2
     def visit_Compare(self, n):
@@ -404,9 +434,19 @@ class _Normalise(ast.NodeTransformer):
     def _inline_lists(self, stmts, scope):
         out = []
         i = 0
+        if len(stmts) > 1 and any(isinstance(x, ast.Pass) for x in stmts):
+            stmts = [x for x in stmts if not isinstance(x, ast.Pass)] or stmts[:1]      # N17: a `pass` next to other statements
         while i < len(stmts):
             st = stmts[i]
             nxt = stmts[i + 1] if i + 1 < len(stmts) else None
+            # N9c  x = E; return x  ->  return E
+            if isinstance(st, ast.Assign) and len(st.targets) == 1 and isinstance(st.targets[0], ast.Name) and isinstance(nxt, ast.Return) \
+                    and isinstance(nxt.value, ast.Name) and nxt.value.id == st.targets[0].id:
+                node = ast.Return(value=st.value)
+                ast.copy_location(node, nxt)
+                out.append(node)
+                i += 2
+                continue
             if isinstance(st, ast.Assign) and len(st.targets) == 1 and isinstance(st.targets[0], ast.Name) \
                     and (isinstance(st.value, ast.ListComp) or (isinstance(nxt, ast.Return) and self._is_ref(st.value)) or
                          (isinstance(nxt, ast.Return) and isinstance(st.value, ast.Call) and isinstance(nxt.value, ast.Call)
@@ -561,6 +601,102 @@ class _SubstMany(ast.NodeTransformer):
             import copy
             return copy.deepcopy(self.env[n.id])
         return n
+
+
+# ---- N18  one calling convention for the plain functions of the package: parameters without a default positionally, parameters with
+#           a default by keyword  (f(x, 3, 'deg') and f(x, dim=3, unit='deg') are one call)
+_PKG_SIGS = {}
+
+
+def package_signatures():
+    """name -> (parameter names, number of defaults) for the module-level functions of the analysed package whose name is unique"""
+    root = os.environ.get('VERIF_REPO', '/repo')
+    key = os.path.realpath(root)
+    if key in _PKG_SIGS:
+        return _PKG_SIGS[key]
+    import warnings
+    sigs = {}
+    base = os.path.join(root, 'spatialmath')
+    for dp, _, files in os.walk(base):
+        for fn in files:
+            if not fn.endswith('.py'):
+                continue
+            try:
+                with warnings.catch_warnings():
+                    warnings.simplefilter('ignore')
+                    t = ast.parse(open(os.path.join(dp, fn)).read())
+            except (SyntaxError, OSError):
+                continue
+            for n in t.body:
+                if isinstance(n, ast.FunctionDef):
+                    ok = n.args.vararg is None and n.args.kwarg is None and not n.args.posonlyargs and not n.args.kwonlyargs
+                    sigs.setdefault(n.name, []).append(([a.arg for a in n.args.args], len(n.args.defaults)) if ok else None)
+    out = {k: v[0] for k, v in sigs.items() if len(v) == 1 and v[0] is not None}
+    # the same name defined identically in two modules (e.g. 2-D / 3-D twins of a private helper) is not unique: left alone
+    _PKG_SIGS[key] = out
+    return out
+
+
+class _CallConvention(ast.NodeTransformer):
+    def __init__(self, aliases, local_defs):
+        self.sigs = package_signatures()
+        self.aliases = aliases
+        self.local_defs = local_defs
+
+    def visit_Call(self, c):
+        self.generic_visit(c)
+        f = c.func
+        if isinstance(f, ast.Name):
+            nm = f.id
+        elif isinstance(f, ast.Attribute) and isinstance(f.value, ast.Name) and f.value.id in self.aliases:
+            nm = f.attr
+        elif isinstance(f, ast.Attribute) and isinstance(f.value, ast.Attribute) and isinstance(f.value.value, ast.Name) and f.value.value.id in self.aliases:
+            nm = f.attr
+        else:
+            return c
+        sig = self.sigs.get(nm)
+        if sig is None or any(isinstance(a, ast.Starred) for a in c.args) or any(k.arg is None for k in c.keywords):
+            return c
+        params, ndef = sig
+        if len(c.args) > len(params):
+            return c
+        bound = dict(zip(params, c.args))
+        for k in c.keywords:
+            if k.arg not in params or k.arg in bound:
+                return c
+            bound[k.arg] = k.value
+        first_def = len(params) - ndef
+        pos = []
+        for p_ in params[:first_def]:
+            if p_ not in bound:
+                return c           # a required parameter is missing: leave the call as written
+            pos.append(bound[p_])
+        kws = [ast.keyword(arg=p_, value=bound[p_]) for p_ in params[first_def:] if p_ in bound]
+        c.args, c.keywords = pos, kws
+        return c
+
+
+def _call_convention(tree):
+    aliases = set()
+    local_defs = set()
+    for n in ast.walk(tree):
+        if isinstance(n, ast.Import):
+            for al in n.names:
+                aliases.add((al.asname or al.name).split('.')[0])
+        elif isinstance(n, ast.ImportFrom):
+            for al in n.names:
+                aliases.add(al.asname or al.name)
+    # a name that the module binds itself (a local function of the same name as a package function, a parameter, ...) is not touched
+    shadow = set()
+    for n in ast.walk(tree):
+        if isinstance(n, (ast.FunctionDef, ast.Lambda)):
+            for a in n.args.args + n.args.kwonlyargs + n.args.posonlyargs:
+                shadow.add(a.arg)
+        elif isinstance(n, ast.Name) and isinstance(n.ctx, ast.Store):
+            shadow.add(n.id)
+    cc = _CallConvention(aliases, local_defs)
+    cc.sigs = {k: v for k, v in cc.sigs.items() if k not in shadow}
+    return cc.visit(tree)
 
 
 # ---- N14 / N15  function-level copy propagation of references and of local one-expression functions
@@ -721,6 +857,65 @@ def _exits(body):
     return False
 
 
+def _ends_in_return(body):
+    """every path through body leaves by `return` (not raise / continue / break)"""
+    if not body:
+        return False
+    last = body[-1]
+    if isinstance(last, ast.Return):
+        return True
+    if isinstance(last, ast.If) and last.orelse:
+        return _ends_in_return(last.body) and _ends_in_return(last.orelse)
+    return False
+
+
+def restore_else(tree):
+    """N20: an `if` without else whose body always RETURNS takes the rest of its block as its else part:
+            if c: return A              if c: return A
+            <rest>              ->      else: <rest>
+    (guards that raise stay flat; they are followed through the N5 annotation)"""
+    for n in ast.walk(tree):
+        for fld in ('body', 'orelse', 'finalbody'):
+            stmts = getattr(n, fld, None)
+            if not isinstance(stmts, list) or len(stmts) < 2:
+                continue
+            # from the back, so that a sequence of early returns becomes one chain
+            i = len(stmts) - 2
+            while i >= 0:
+                st = stmts[i]
+                if isinstance(st, ast.If) and not st.orelse and _ends_in_return(st.body) and i + 1 < len(stmts) and \
+                        not isinstance(n, (ast.For, ast.While, ast.AsyncFor)):
+                    st.orelse = stmts[i + 1:]
+                    del stmts[i + 1:]
+                i -= 1
+    return tree
+
+
+def chain_guards(tree):
+    """N21: the last arm of an if-chain written as a guard,
+            else:                                   elif not c: <rest>
+                if c: raise E          ->           else: raise E
+                <rest>
+    so that the chain ends in its `else: raise` again"""
+    from .boolfold import negate, _push_not
+    changed = True
+    rounds = 0
+    while changed and rounds < 4:
+        changed = False
+        rounds += 1
+        for n in ast.walk(tree):
+            if isinstance(n, ast.If) and len(n.orelse) >= 2:
+                g = n.orelse[0]
+                if isinstance(g, ast.If) and not g.orelse and len(g.body) == 1 and isinstance(g.body[0], ast.Raise):
+                    rest = n.orelse[1:]
+                    new = ast.If(test=_push_not(negate(g.test)), body=rest, orelse=g.body)
+                    ast.copy_location(new, g)
+                    ast.fix_missing_locations(new)
+                    n.orelse = [new]
+                    changed = True
+    return tree
+
+
 def annotate_continuations(tree):
     """N5: an `if` without else whose body always leaves the block (return / raise / continue / break) is the first arm of a
     chain whose else-part is the rest of the block:   if a: return X        if a: return X
@@ -743,15 +938,28 @@ def annotate_continuations(tree):
 def normalise(tree):
     if os.environ.get('VERIF_NO_NORMALIZE') == '1':
         return tree
+    tree = _call_convention(tree)
     tree = _inline_helpers(tree)
     for fn in [n for n in ast.walk(tree) if isinstance(n, ast.FunctionDef)]:
         _propagate_refs(fn)
         _inline_local_functions(fn)
     nz = _Normalise()
-    tree = nz.visit(tree)
-    nz._blocks(tree, None)
-    tree = nz.visit(tree)            # N10 on the comprehensions N7 produced
-    nz._inline_pass(tree, None)
-    ast.fix_missing_locations(tree)
+    # the rewrites enable one another (an else restored by N20 can be turned round by N11, a return sunk by N8 makes an arm return for
+    # N20, ...): a few rounds, until the tree no longer changes
+    prev = None
+    for _ in range(4):
+        restore_else(tree)
+        chain_guards(tree)
+        tree = nz.visit(tree)
+        nz._blocks(tree, None)
+        tree = nz.visit(tree)            # N10 on the comprehensions N7 produced
+        nz._inline_pass(tree, None)
+        ast.fix_missing_locations(tree)
+        cur = ast.dump(tree)
+        if cur == prev:
+            break
+        prev = cur
+    restore_else(tree)
+    chain_guards(tree)
     annotate_continuations(tree)
     return tree
